@@ -56,7 +56,7 @@ def reset_capacity():
     StreamItemQueue.__init__.__defaults__ = _DEFAULTS
 
 
-def run_incremental(scn, sched_tape, stop_factory=None, step_cap=None):
+def run_incremental(scn, sched_tape, stop_factory=None, step_cap=None, lenient=False):
     """Run every request of the scenario concurrently on one SimLoop.
 
     stop_factory(sim, tape, i, rs, req, rr) -> Stop object or None (C06).
@@ -98,7 +98,7 @@ def run_incremental(scn, sched_tape, stop_factory=None, step_cap=None):
             return
         assert isinstance(res, ExperimentalIncrementalExecutionResults)
         rr.kind = "incremental"
-        mon = Monitor(rs.gen.labels_parent)
+        mon = Monitor(rs.gen.labels_parent, lenient=lenient)
         rr.monitor = mon
         initial = res.initial_result.formatted
         rr.payloads.append(initial)
